@@ -8,7 +8,9 @@ _target = None      # realpath of the monitored .gdb file
 _log = []           # (class, statement head)
 
 WRITE_RE = re.compile(r'^\s*(INSERT|UPDATE|DELETE|REPLACE|CREATE|DROP|ALTER|VACUUM|REINDEX|ATTACH|DETACH)\b', re.I)
-PRAGMA_WRITE_RE = re.compile(r'^\s*PRAGMA\s+[\w.]+\s*(=|\()', re.I)
+# only PRAGMAs whose effect persists in the database file; connection-local settings (foreign_keys, query_only,
+# cache_size, synchronous, busy_timeout ...) are not writes
+PRAGMA_WRITE_RE = re.compile(r'^\s*PRAGMA\s+(\w+\.)?(journal_mode|user_version|application_id|schema_version|auto_vacuum|incremental_vacuum|encoding|page_size|wal_checkpoint|optimize|legacy_file_format)\s*(=|\(|$)', re.I)
 TXN_RE = re.compile(r'^\s*(BEGIN|COMMIT|ROLLBACK|SAVEPOINT|RELEASE)\b', re.I)
 
 
